@@ -131,6 +131,14 @@ func (cs *State) catchupReplay(csHeight int64) error {
 	} else if err != nil {
 		return err
 	}
+	if !found && endHeight > 0 && cs.state.LastBlockHeight == endHeight && cs.blockStore.Height() >= endHeight {
+		// The previous height was finished by the ABCI handshake (a crash
+		// between saving the block and writing its #ENDHEIGHT): the block is
+		// stored and applied, but the WAL never got the marker, so nothing
+		// logged for csHeight from now on could be replayed after another
+		// crash. There is nothing to replay yet; write the marker now.
+		return cs.wal.WriteSync(EndHeightMessage{endHeight})
+	}
 	if !found {
 		return fmt.Errorf("cannot replay height %d. WAL does not contain #ENDHEIGHT for %d", csHeight, endHeight)
 	}
